@@ -34,6 +34,7 @@ import (
 	"github.com/dadrus/heimdall/internal/rules/endpoint"
 	"github.com/dadrus/heimdall/internal/x"
 	"github.com/dadrus/heimdall/internal/x/errorchain"
+	"github.com/dadrus/heimdall/internal/x/hashx"
 	"github.com/dadrus/heimdall/internal/x/stringx"
 )
 
@@ -92,10 +93,10 @@ func (c *Config) Token(ctx context.Context) (*TokenInfo, error) {
 
 func (c *Config) calculateCacheKey() string {
 	digest := sha256.New()
-	digest.Write(stringx.ToBytes(c.ClientID))
-	digest.Write(stringx.ToBytes(c.ClientSecret))
-	digest.Write(stringx.ToBytes(c.TokenURL))
-	digest.Write(stringx.ToBytes(strings.Join(c.Scopes, "")))
+	hashx.WriteString(digest, c.ClientID)
+	hashx.WriteString(digest, c.ClientSecret)
+	hashx.WriteString(digest, c.TokenURL)
+	hashx.WriteStrings(digest, c.Scopes)
 
 	return hex.EncodeToString(digest.Sum(nil))
 }
@@ -227,10 +228,10 @@ func (c *Config) Apply(_ context.Context, req *http.Request) error {
 
 func (c *Config) Hash() []byte {
 	digest := sha256.New()
-	digest.Write(stringx.ToBytes(c.ClientID))
-	digest.Write(stringx.ToBytes(c.ClientSecret))
-	digest.Write(stringx.ToBytes(c.TokenURL))
-	digest.Write(stringx.ToBytes(strings.Join(c.Scopes, "")))
+	hashx.WriteString(digest, c.ClientID)
+	hashx.WriteString(digest, c.ClientSecret)
+	hashx.WriteString(digest, c.TokenURL)
+	hashx.WriteStrings(digest, c.Scopes)
 
 	return digest.Sum(nil)
 }
